@@ -121,6 +121,10 @@ where
     }
 
     fn solve(&self, solver: &Solver<U, E>, state: State<U, E>) -> Stream<U, E> {
+        #[cfg(terohuttunen_proto_vulcan_verif)]
+        if crate::verif_sim::yield_here(crate::verif_sim::SITE_GOAL_SOLVE) {
+            return Stream::delay(self.solve(solver, state));
+        }
         match self {
             Goal::Succeed => Stream::unit(Box::new(state)),
             Goal::Fail => Stream::empty(),
@@ -187,6 +191,10 @@ where
     }
 
     fn solve(&self, solver: &Solver<U, E>, state: State<U, E>) -> Stream<U, E> {
+        #[cfg(terohuttunen_proto_vulcan_verif)]
+        if crate::verif_sim::yield_here(crate::verif_sim::SITE_DFSGOAL_SOLVE) {
+            return Stream::delay(self.solve(solver, state));
+        }
         match self {
             DFSGoal::Succeed => Stream::unit(Box::new(state)),
             DFSGoal::Fail => Stream::empty(),
